@@ -64,7 +64,7 @@ fn judge(outcome: &Outcome, what: &str, grammar: &str, text: &str, input: &Value
         }
         // A panic caught at a thread join surfaces as an "error" carrying the panic payload's
         // debug form: not a readable error but a crash in disguise.
-        Outcome::Error { stage, message, .. } if message.contains("Any {") || message.contains("panicked at") => {
+        Outcome::Error { stage, message, .. } if message.contains("Any {") || message.contains("panicked") => {
             sink.outcome(format!("{grammar}:{what}:panic-behind-error"));
             sink.fail(format!("C04:panic-behind-error:{}:{stage}", grammar_family(grammar)), format!("{what}: the run failed with the payload of a panic instead of a readable error: {}\n--- input ---\n{text:?}", first_line(message)), input.clone());
         }
